@@ -27,12 +27,16 @@ def snap(top, root):
 
 
 def main():
-    method, path_info, hrefs = json.loads(sys.argv[1])
+    method, path_info, hrefs = json.loads(sys.argv[1])[:3]
+    root_store = len(json.loads(sys.argv[1])) > 3 and json.loads(sys.argv[1])[3]
     top = tempfile.mkdtemp(prefix="xv-c13-")
     try:
         nest = os.path.join(top, *["n%d" % i for i in range(10)])
         srv = os.path.join(nest, "srv")
         root = os.path.join(srv, "root")
+        if root_store:
+            os.makedirs(srv)
+            TreeGitStore.create(root)  # the data root is itself a (non-bare) git collection
         os.makedirs(os.path.join(root, "user", "calendars"))
         os.makedirs(os.path.join(root, "user", "contacts"))
         os.makedirs(os.path.join(srv, "other"))
